@@ -654,7 +654,9 @@ func (h *Sources) getLine(line *core.Line, cur *core.Cursor) (*core.Line, *core.
 			return line, cur
 		}
 
-		lh := hist[0]
+		// The states of the main input line are kept under the
+		// position it has in the history (-1), like everywhere else.
+		lh := hist[-1]
 		if lh == nil || len(lh.items) == 0 {
 			return line, cur
 		}
